@@ -122,7 +122,14 @@ class Reader:
     @staticmethod
     def _decompress_data(compressed_data: bytes) -> bytes:
         try:
-            return lzma.decompress(compressed_data, format=_LZMA_FORMAT, filters=_LZMA_DECOMPRESSION_FILTERS)
+            # the writer emits exactly one raw stream. lzma.decompress() would go on and try to decode whatever
+            #  follows it as further streams - one per trailing zero byte, re-copying the rest of the file each
+            #  time, so a padded file takes quadratic time to open. decode the one stream; ignore what follows it.
+            decompressor = lzma.LZMADecompressor(format=_LZMA_FORMAT, filters=_LZMA_DECOMPRESSION_FILTERS)
+            decompressed_data = decompressor.decompress(compressed_data)
+            if not decompressor.eof:
+                raise lzma.LZMAError("Compressed data ended before the end-of-stream marker was reached")
+            return decompressed_data
         except lzma.LZMAError as e:
             raise FlipJumpReadFjmException('Error: The compressed data is damaged; Unable to decompress.') from e
 
